@@ -1,6 +1,7 @@
 import L21.Driver.Sexp
 import L21.Model.GdsFloat
 import L21.Model.Dep
+import L21.Model.Geom
 /-
 Line-protocol operations: `<op> <sexpr>*` ↦ result line.
 -/
@@ -49,10 +50,42 @@ def opDep (dangling : Bool) (args : List Sexp) : String :=
       | .cycle => "err"
       | .fuel => "fuel"
 
+def pt? : Sexp → Option Geom.Pt
+  | .list [a, b] => do pure ⟨← int? a, ← int? b⟩
+  | _ => none
+def pts? (xs : List Sexp) : Option (List Geom.Pt) := xs.mapM pt?
+
+def opContains (args : List Sexp) : String :=
+  match args with
+  | [.list (.atom kind :: rest), .list qs] =>
+    match pts? qs with
+    | none => "bad-op"
+    | some qs =>
+      match kind, rest with
+      | "rect", [a, b, c, d] =>
+        match int? a, int? b, int? c, int? d with
+        | some a, some b, some c, some d =>
+          s!"ok {Sexp.list (qs.map (fun q => ofBool (Geom.rectContains ⟨a, b⟩ ⟨c, d⟩ q)))}"
+        | _, _, _, _ => "bad-op"
+      | "poly", vs =>
+        match pts? vs with
+        | some P => s!"ok {Sexp.list (qs.map (fun q => ofBool (Geom.polyContains P q)))}"
+        | none => "bad-op"
+      | "path", w :: vs =>
+        match nat? w, pts? vs with
+        | some w, some P =>
+          let rs := qs.map (fun q => Geom.pathContains P w q)
+          if rs.any (fun r => r == Geom.Out.panic) then "panic"
+          else s!"ok {Sexp.list (rs.map (fun r => match r with | .ok b => ofBool b | .panic => .atom "?"))}"
+        | _, _ => "bad-op"
+      | _, _ => "bad-op"
+  | _ => "bad-op"
+
 def dispatch (op : String) (args : List Sexp) : String :=
   match op with
   | "f.enc" => opFEnc args
   | "f.dec" => opFDec args
+  | "geom.contains" => opContains args
   | "dep.generic" => opDep false args
   | "dep.raw" => opDep true args
   | "dep.tetris" => opDep true args
